@@ -12,6 +12,11 @@ def jobs(tier):
         strata.append(dict(name="S-elem4/near-miss", ns=[3], pin={3: 3}, params=dict(K_m=1, K_r=1, alphabet=SIGMA_T4)))
     js += shape_strata("harness.pipeline", "c02pair", tier, quick=strata, thorough=strata, max_seconds=3000 if t else 240)
     js.append(job("harness.pipeline", "c02_wlpairs", "WL-pairs", {}, max_seconds=3000 if t else 240))
+    # through the readers: a molecule written as a file, read, serialized, decoded independently
+    rs = [dict(name="reader/v3000", ns=[2, 3] + ([4] if t else []), pin={3: 3, 4: 6}, params=dict(K_m=2, K_r=1, rad_hi=3, fmt="v3000")),
+          dict(name="reader/v2000-one-entry-per-line", ns=[2, 3] + ([4] if t else []), pin={3: 3, 4: 6}, params=dict(K_m=2, K_r=2, rad_hi=3, fmt="v2000")),
+          dict(name="reader/v2000-iso-first", ns=[2, 3], pin={3: 3}, params=dict(K_m=2, K_r=1, rad_hi=3, fmt="v2000", iso_first=True))]
+    js += shape_strata("harness.readers", "c02_reader", tier, quick=rs, thorough=rs, max_seconds=3000 if t else 240)
     return js
 
 
@@ -21,4 +26,5 @@ def main(tier):
         assumptions=STD_ASSUME + ["left-inverse argument: if REF-DECODER(tucan(G)) is isomorphic to G for every G of the domain then tucan(G1) == tucan(G2) implies G1 ~ dec(s) ~ G2; REF-DECODER and REF-ISO share no code with tucan",
                                   "a missing label and the invariant code's default 0 are the same colour"],
         outside=["n > 5 beyond the curated skeletons", "WL-hard pairs beyond the curated skeletons"],
+        stubs=["module attribute `int`/`float` of the reader modules shadowed (reader-level jobs)"],
         explanation="per path: the emitted segment string is decoded by the independent reference reader (label values stay terms); obligation: for some skeleton isomorphism (REF-ISO, concrete) the solver proves all label terms equal. Near-miss pairs: str_eq(s, s'') -> isomorphic must be valid.")
